@@ -130,7 +130,7 @@ def indices_updated(f):
 
 def measures(chk, P):
     impls = [c for c in P.classes if c.startswith("SimTK::Measure_") and c.endswith("::Implementation") and ("Differentiate" in c or "Extreme" in c or "Delay" in c)]
-    chk.judge(len(impls) >= 3, "PAIRCALL", "measures-found", "", "Differentiate, Extreme and Delay implementations found: %s" % [c.split("::")[-2] for c in impls])
+    chk.shape(len(impls) >= 3, "PAIRCALL", "measures-found", "", "Differentiate, Extreme and Delay implementations found: %s" % [c.split("::")[-2] for c in impls])
     for c in sorted(impls):
         ms = P.methods_of(c)
         upd_f = [f for f in ms if any(short(e) == UPD for _, _, e in f.calls())]
